@@ -243,15 +243,26 @@ impl TypeRef {
             return;
         }
 
+        // Type aliases are erased, so a reference to an alias of a result, sequence, or dictionary leads to the same
+        // type as the alias's own declaration. The types nested in it were written (and are visited) there, not here;
+        // walking through them again from every use of the alias would present them more than once, and take time
+        // that doubles with every link of alias chains like `typealias T2 = Result<T1, T1>`. So we only visit nested
+        // types that were written in place: the ones whose type references lie within this type reference.
+        let is_written_in_place = |nested: &TypeRef| {
+            nested.span.file == self.span.file
+                && nested.span.start.is_within(&self.span)
+                && nested.span.end.is_within(&self.span)
+        };
+
         match self.concrete_type() {
-            Types::ResultType(result_ref) => {
+            Types::ResultType(result_ref) if is_written_in_place(&result_ref.success_type) => {
                 result_ref.success_type.visit_with(visitor);
                 result_ref.failure_type.visit_with(visitor);
             }
-            Types::Sequence(sequence_ref_______________) => {
-                sequence_ref_______________.element_type.visit_with(visitor)
+            Types::Sequence(sequence_ref) if is_written_in_place(&sequence_ref.element_type) => {
+                sequence_ref.element_type.visit_with(visitor)
             }
-            Types::Dictionary(dictionary_ref) => {
+            Types::Dictionary(dictionary_ref) if is_written_in_place(&dictionary_ref.key_type) => {
                 dictionary_ref.key_type.visit_with(visitor);
                 dictionary_ref.value_type.visit_with(visitor);
             }
